@@ -27,7 +27,7 @@ var c09Codecs = map[string]string{
 }
 
 func c09(p *an.Prog, r *an.R, tier string) {
-	r.Explanation = "C09 (structural clauses): the shard writer's and reader's section tables agree: every indexTOC section that ShardBuilder.Write fills is listed (once, under one tag) in the tagged section list that is written and read; every section the readers consume is one that Write produces; for every section whose encoder and decoder are visible, they are an inverse pair; every SkipReason has its own explanation; Write cannot report success without its final buffered flush having succeeded. Does NOT decide that bytes round-trip (delta coding, b-tree arithmetic, rune-offset sampling)."
+	r.Explanation = "C09 (structural clauses): the shard writer's and reader's section tables agree: every indexTOC section that ShardBuilder.Write fills is listed (once, under one tag) in the tagged section list that is written and read; every section the readers consume is one that Write produces; for every section whose encoder and decoder are visible, they are an inverse pair; every SkipReason has its own explanation; Write cannot report success without its final buffered flush having succeeded. (R6) map memos of ShardBuilder derived from another builder field are reset wherever that field is stored. Does NOT decide that bytes round-trip (delta coding, b-tree arithmetic, rune-offset sampling)."
 	r.Rule("C09.R1", "sections filled by ShardBuilder.Write ⊆ sections listed in indexTOC.sectionsTaggedList; tags and section addresses are unique")
 	r.Rule("C09.R2", "sections read by the reader functions of package index ⊆ sections filled by Write (legacy table: empty)")
 	r.Rule("C09.R3", "per section: the set of encoder functions on the writer side and decoder functions on the reader side are inverse pairs (toSizedDeltas/fromSizedDeltas, toSizedDeltas16/fromSizedDeltas16, marshalDocSections/unmarshalDocSections, U32/readSectionU32, U64/readSectionU64, json)")
